@@ -137,7 +137,7 @@ def run(tier, seed):
         explore.bfs(h, cfg, DEPTH[tier], col, seed=seed, result=res, merge_all=(tier == 'thorough'),
                     run_state_checks=True)
         for kind in ('coop', 'lateclose', 'silent', 'refuse'):
-            kk, win = (2, 10) if tier == 'quick' else (DEVK[tier], None)
+            kk, win = (2, 10) if tier == 'quick' else (DEVK[tier], 24)
             st = explore.deviations(h, cfg, kk, 40, col, script_kw={'kind': kind}, window=win)
             dev.append({'cfg': cfg, 'script': kind, 'executions': st['executions'], 'events': st['events'], 'k': st['k'], 'window': st['window']})
     explore.close_pool()
